@@ -72,7 +72,7 @@ string ParticleCreatorFile::readNext(ifstream &pos) {
   
   while ((c = pos.get()) == ' ');
   
-  while (level > 0 || isalnum(c) || c == '-' || c == '.' || c == '(' || c == ')') {
+  while (level > 0 || isalnum(c) || c == '-' || c == '+' || c == '.' || c == '(' || c == ')') {
 //     MSG_DEBUG("ParticleCreatorFile::readNext(ifstream &pos)", "c = " << c);
     if (c == '(')
       level++;
